@@ -281,6 +281,71 @@ Section Pace.
              ++ split; [eapply FrameCore_nil; eauto|discriminate].
              ++ split; [eapply FrameCore_nil; eauto|reflexivity].
   Qed.
+  (* one await reports a hang only if some attempt never completes *)
+  Lemma await_hang lim s lg :
+    Inv c atts s -> await_next c tb lim s = WHang lg ->
+    exists i a, nth_error atts i = Some a /\ a_out a = Never.
+  Proof.
+    intros H. unfold await_next.
+    destruct (pick_due tb (now s) (running s)) as [r|] eqn:Hpick; [unfold completed; discriminate|].
+    pose proof (polled_spec c atts (pend s) s eq_refl H) as Hpoll. unfold polled_post, polled in Hpoll.
+    destruct (poll_pend (now s) (pend s) (running s) (log s)) as [[[p' rs'] lg'] ready].
+    destruct Hpoll as (Hm & _).
+    destruct ready as [r|]; [unfold completed; discriminate|].
+    destruct rs' as [|r0 rs0]; [discriminate|]. cbv iota. set (rs' := r0 :: rs0) in *. cbv zeta beta.
+    assert (Hnever : min_finish rs' = None -> exists i a, nth_error atts i = Some a /\ a_out a = Never).
+    { intros Hmin. pose proof (min_finish_none _ Hmin r0 (or_introl eq_refl)) as Hf.
+      destruct (i_run c atts _ Hm r0) as (Hatt & _); [cbn [running]; left; reflexivity|].
+      exists (r_idx r0), (r_att r0). split; [exact Hatt|]. unfold finish_of in Hf.
+      destruct (a_out (r_att r0)); [discriminate|discriminate|reflexivity]. }
+    assert (Hcompl : forall t, min_finish rs' = Some t ->
+              (if past_deadline c t then WDeadline lg'
+               else match pick_due tb t rs' with
+                    | Some r => completed r t p' (remove_run (r_idx r) rs') (err s) lg'
+                    | None => WHang lg'
+                    end) = WHang lg -> False).
+    { intros t Hmin. destruct (past_deadline c t); [discriminate|].
+      destruct (pick_due tb t rs') as [r|] eqn:Hp2; [unfold completed; discriminate|]. intros _.
+      destruct (min_finish_some _ _ Hmin) as [(rmin & Hrin & Hrf) _].
+      pose proof (pick_due_none _ _ _ Hp2 rmin Hrin) as Hnd.
+      assert (due t rmin = true) by (apply due_iff; exists t; split; [auto|lia]). congruence. }
+    destruct (min_finish rs') as [t|] eqn:Hmin, lim as [l|].
+    - destruct (N.leb t l).
+      + intros E. destruct (Hcompl t eq_refl E).
+      + destruct (past_deadline c l); discriminate.
+    - intros E. destruct (Hcompl t eq_refl E).
+    - destruct (past_deadline c l); discriminate.
+    - intros _. apply Hnever. reflexivity.
+  Qed.
+
+  (* an await that ends in the deadline or in a hang has polled at least one attempt *)
+  Lemma await_stuck lim s lg :
+    Inv c atts s -> await_next c tb lim s = WDeadline lg \/ await_next c tb lim s = WHang lg ->
+    lstarts lg <> [].
+  Proof.
+    intros H. unfold await_next.
+    destruct (pick_due tb (now s) (running s)) as [r|] eqn:Hpick; [unfold completed; intros [E|E]; discriminate E|].
+    pose proof (polled_spec c atts (pend s) s eq_refl H) as Hpoll. unfold polled_post, polled in Hpoll.
+    destruct (poll_pend (now s) (pend s) (running s) (log s)) as [[[p' rs'] lg'] ready].
+    destruct Hpoll as (Hm & _).
+    destruct ready as [r|]; [unfold completed; intros [E|E]; discriminate E|].
+    destruct rs' as [|r0 rs0]; [intros [E|E]; discriminate E|]. cbv iota.
+    assert (Hne : lstarts lg' <> []).
+    { destruct (i_run c atts _ Hm r0) as (_ & Hst & _); [cbn [running]; left; reflexivity|].
+      cbn [log] in Hst. intros E0. rewrite E0 in Hst. destruct Hst. }
+    cbv zeta beta.
+    assert (Hres : forall w : waited,
+              match w with WDeadline l | WHang l => l = lg' | _ => True end ->
+              w = WDeadline lg \/ w = WHang lg -> lstarts lg <> []).
+    { intros w Hw [E|E]; subst w; cbn in Hw; subst lg; exact Hne. }
+    destruct (min_finish (r0 :: rs0)) as [t|], lim as [l|]; apply Hres;
+      repeat match goal with
+             | |- context [if ?b then _ else _] => destruct b
+             | |- context [match pick_due ?a ?b ?c with _ => _ end] => destruct (pick_due a b c)
+             | |- context [match c_timeout c with _ => _ end] => destruct (c_timeout c)
+             end; unfold completed; cbn; auto.
+  Qed.
+
   (* ---------- what the final log must satisfy ---------- *)
   Definition VL (lg : list ev) (p : nat) (w : N) : Prop := In (p, w) (lstarts lg).
 
@@ -299,8 +364,23 @@ Section Pace.
     ((length (lstarts lg) < m)%nat -> (exists i, res = ROk i) /\ td = Some 0)
     /\ ((m <= length (lstarts lg))%nat -> UnstOK lg td).
 
+  (* a hang needs an attempt that never completes *)
+  Definition HangNever (res : result) : Prop :=
+    res = RHang -> exists i a, nth_error atts i = Some a /\ a_out a = Never.
+
+  (* a timeout with a candidate not started: the deadline lies strictly before the stagger timer *)
+  Definition TimeoutStrict (res : result) (td : option N) (lg : list ev) : Prop :=
+    res = RTimeout -> (length (lstarts lg) < length atts)%nat ->
+    exists w, WB (VL lg) (length (lstarts lg)) w /\
+              forall d T, c_delay c = Some d -> td = Some T -> T < w + d.
+
+  (* unless there is no candidate at all, the run polls at least one *)
+  Definition SomeStart (lg : list ev) : Prop := atts <> [] -> lstarts lg <> [].
+
   Definition Post (x : result * option N * list ev) : Prop :=
-    FinalT c atts x /\ PaceLog (snd x) /\ Unstarted (fst (fst x)) (snd (fst x)) (snd x).
+    FinalT c atts x /\ PaceLog (snd x) /\ Unstarted (fst (fst x)) (snd (fst x)) (snd x)
+    /\ HangNever (fst (fst x)) /\ TimeoutStrict (fst (fst x)) (snd (fst x)) (snd x)
+    /\ SomeStart (snd x).
 
   Lemma WB_started s j w : Inv c atts s -> (j <= nstarted s)%nat -> WB (InV s) j w -> WB (VL (log s)) j w.
   Proof.
@@ -346,6 +426,15 @@ Section Pace.
     exists w. split; [apply WB_started; auto|]. split; [exact D|exact E].
   Qed.
 
+  Lemma WB_wait s tm lg :
+    WB (InV s) (nstarted s + length (pend s)) (now s) -> FrameCore s tm [] lg ->
+    WB (VL lg) (length (lstarts lg)) (now s).
+  Proof.
+    intros HW (A & B & C). cbn [length] in C. rewrite Nat.add_0_r in C. rewrite C.
+    destruct (nstarted s + length (pend s))%nat as [|p]; cbn [WB] in *; [exact HW|].
+    apply B in HW. destruct HW as [HW|[_ [a []]]]. exact HW.
+  Qed.
+
   (* the next candidate is not queued yet: the run ends during the wait that began at [now s] *)
   Lemma Unst_wait s tm lg td :
     Inv c atts s -> WB (InV s) (nstarted s + length (pend s)) (now s) -> FrameCore s tm [] lg ->
@@ -366,7 +455,12 @@ Section Pace.
     (pend sm = [] -> (nstarted sm < length atts)%nat -> UnstOK (log sm) (Some (now sm))) ->
     Post (ROk (r_idx r), Some (now sm), EDone (r_idx r) (now sm) :: log sm).
   Proof.
-    intros H HP Hin Hf Hout Hm Hwait. split; [|split].
+    intros H HP Hin Hf Hout Hm Hwait. split; [|split; [|split; [|split; [|split]]]].
+    4:{ cbn [fst snd]. intros E. discriminate E. }
+    4:{ cbn [fst snd]. intros E. discriminate E. }
+    4:{ cbn [snd]. intros _ E0. destruct (i_run c atts sm H r Hin) as (_ & Hst & _).
+        change (lstarts (EDone (r_idx r) (now sm) :: log sm)) with (lstarts (log sm)) in E0.
+        rewrite E0 in Hst. destruct Hst. }
     - unfold FinalT. cbn [fst snd]. apply F_ok; auto.
     - cbn [snd]. apply PaceLog_done; auto. apply Pace_log; auto.
     - cbn [fst snd]. intros Hk. change (lstarts (EDone (r_idx r) (now sm) :: log sm)) with (lstarts (log sm)) in *.
@@ -458,8 +552,10 @@ Section Pace.
         destruct (push_step s s' i a H HW Hm Ha H' HP' E' HV HT HB HD) as (A & B & C & D).
         apply IH; auto; rewrite C; auto. lia. }
       pose proof (await_next_spec c atts tb lim s H Hlim) as HA.
-      pose proof (await_frame lim s Hlim) as HFr. revert HA HFr.
-      generalize (await_next c tb lim s). intros w HA HFr.
+      pose proof (await_frame lim s Hlim) as HFr.
+      pose proof (fun lg => await_hang lim s lg H) as HH.
+      pose proof (fun lg => await_stuck lim s lg H) as HS. revert HA HFr HH HS.
+      generalize (await_next c tb lim s). intros w HA HFr HH HS.
       destruct HA as [sm r Hsm Hin Hf Hc Hl|s' Hs' Hp' Hr' Hp Hr Hn Hnow|s' l El Hs' Hp' Hnow Hn
                      |sm d Hsm Hp' Hd Hall|sm Hsm Hp' Hd Hall].
       + unfold completed, Frame in HFr. cbn [log now pend] in HFr.
@@ -507,7 +603,12 @@ Section Pace.
         -- rewrite (proj1 Hcore). auto.
       + cbn [Frame] in HFr. destruct HFr as (Hcore & Hdl).
         assert (HPm : Pace sm) by (apply (Pace_frame s sm); auto; apply (FrameCore_st s sm 0); auto).
-        unfold deadline_time. rewrite Hd. cbn [P2post]. split; [|split]; cbn [fst snd].
+        unfold deadline_time. rewrite Hd. cbn [P2post]. split; [|split; [|split; [|split; [|split]]]]; cbn [fst snd].
+        4:{ intros E. discriminate E. }
+        4:{ intros _ Hk. exists (now s). split; [apply (WB_wait s 0); auto; rewrite <- Hi; exact HW|].
+            intros d0 T Ed ET. injection ET as <-.
+            apply (Hdl (now s + d0) d); [unfold lim; rewrite Ed; reflexivity|exact Hd]. }
+        4:{ intros _. apply (HS (log sm)). left; reflexivity. }
         * unfold FinalT. cbn [fst snd]. apply F_deadline; auto.
         * apply Pace_log; auto.
         * intros Hk. pose proof (proj2 (proj2 Hcore)) as Hc. cbn [length] in Hc. split; [intros; lia|].
@@ -515,7 +616,10 @@ Section Pace.
           apply Hbound. intros l El. specialize (Hdl l d El Hd). lia.
       + cbn [Frame] in HFr. destruct HFr as (Hcore & Hnl).
         assert (HPm : Pace sm) by (apply (Pace_frame s sm); auto; apply (FrameCore_st s sm 0); auto).
-        cbn [P2post]. split; [|split]; cbn [fst snd].
+        cbn [P2post]. split; [|split; [|split; [|split; [|split]]]]; cbn [fst snd].
+        4:{ intros _. apply (HH (log sm) eq_refl). }
+        4:{ intros E. discriminate E. }
+        4:{ intros _. apply (HS (log sm)). right; reflexivity. }
         * unfold FinalT. cbn [fst snd]. apply F_hang; auto.
         * apply Pace_log; auto.
         * intros Hk. pose proof (proj2 (proj2 Hcore)) as Hc. cbn [length] in Hc. split; [intros; lia|].
@@ -530,8 +634,10 @@ Section Pace.
     induction fuel as [|fuel IH]; intros s H HP Hcnt Hfuel; [lia|]. cbn [phase3].
     assert (Hlim : forall l, @None N = Some l -> now s <= l) by discriminate.
     pose proof (await_next_spec c atts tb None s H Hlim) as HA.
-    pose proof (await_frame None s Hlim) as HFr. revert HA HFr.
-    generalize (await_next c tb None s). intros w HA HFr.
+    pose proof (await_frame None s Hlim) as HFr.
+    pose proof (fun lg => await_hang None s lg H) as HH.
+    pose proof (fun lg => await_stuck None s lg H) as HS. revert HA HFr HH HS.
+    generalize (await_next c tb None s). intros w HA HFr HH HS.
     pose proof (m_le c atts) as Hmle. fold m in Hmle.
     destruct HA as [sm r Hsm Hin Hf Hc Hl|s' Hs' Hp' Hr' Hp Hr Hn Hnow|s' l El Hs' Hp' Hnow Hn
                    |sm d Hsm Hp' Hd Hall|sm Hsm Hp' Hd Hall].
@@ -549,20 +655,31 @@ Section Pace.
         * cbn [pend running]. pose proof (remove_run_length r _ Hin). lia.
       + exfalso. apply (finish_never r _ Hf). exact Hout.
     - cbn [Frame] in HFr. destruct HFr as (Hn' & Hcore).
-      split; [|split]; cbn [fst snd].
+      split; [|split; [|split; [|split; [|split]]]]; cbn [fst snd].
+      4:{ intros E. destruct (err s'); discriminate E. }
+      4:{ intros E. destruct (err s'); discriminate E. }
+      4:{ intros Hne E0. apply Hne. apply length_zero_iff_nil.
+          assert (Hz0 : nstarted s' = 0%nat) by (unfold nstarted; rewrite E0; reflexivity).
+          rewrite Hp in Hcnt. cbn [length] in Hcnt. lia. }
       + unfold FinalT. cbn [fst snd]. apply F_exh; auto. rewrite Hn. rewrite Hp in Hcnt. cbn [length] in Hcnt. lia.
       + apply Pace_log; auto. apply (Pace_frame s s'); auto.
       + intros Hk. fold (nstarted s') in Hk. rewrite Hn in Hk. rewrite Hp in Hcnt. cbn [length] in Hcnt. lia.
     - discriminate.
     - cbn [Frame] in HFr. destruct HFr as (Hcore & _).
       assert (HPm : Pace sm) by (apply (Pace_frame s sm); auto; apply (FrameCore_st s sm 0); auto).
-      unfold deadline_time. rewrite Hd. split; [|split]; cbn [fst snd].
+      unfold deadline_time. rewrite Hd. split; [|split; [|split; [|split; [|split]]]]; cbn [fst snd].
+      4:{ intros E. discriminate E. }
+      4:{ intros _ Hk. pose proof (proj2 (proj2 Hcore)) as Hc. cbn [length] in Hc. lia. }
+      4:{ intros _. apply (HS (log sm)). left; reflexivity. }
       + unfold FinalT. cbn [fst snd]. apply F_deadline; auto.
       + apply Pace_log; auto.
       + intros Hk. pose proof (proj2 (proj2 Hcore)) as Hc. cbn [length] in Hc. lia.
     - cbn [Frame] in HFr. destruct HFr as (Hcore & _).
       assert (HPm : Pace sm) by (apply (Pace_frame s sm); auto; apply (FrameCore_st s sm 0); auto).
-      split; [|split]; cbn [fst snd].
+      split; [|split; [|split; [|split; [|split]]]]; cbn [fst snd].
+      4:{ intros _. apply (HH (log sm) eq_refl). }
+      4:{ intros E. discriminate E. }
+      4:{ intros _. apply (HS (log sm)). right; reflexivity. }
       + unfold FinalT. cbn [fst snd]. apply F_hang; auto.
       + apply Pace_log; auto.
       + intros Hk. pose proof (proj2 (proj2 Hcore)) as Hc. cbn [length] in Hc. lia.
@@ -731,7 +848,8 @@ End Pace.
 (* ---------- packaged results ---------- *)
 Lemma he_obs_post c tb atts :
   exists res td lg, he_obs c tb atts = obs_of res td lg /\ Final c atts res td lg
-                    /\ PaceLog c atts lg /\ Unstarted c atts res td lg.
+                    /\ PaceLog c atts lg /\ Unstarted c atts res td lg
+                    /\ HangNever atts res /\ TimeoutStrict c atts res td lg /\ SomeStart atts lg.
 Proof.
   pose proof (he_run_post c atts tb) as HP. unfold he_obs, Post, FinalT in *.
   destruct (he_run c tb atts) as [[res td] lg]. cbn [fst snd] in HP.
@@ -746,7 +864,7 @@ Qed.
 
 Theorem s_unstarted_holds c tb atts : s_unstarted c atts (he_obs c tb atts) = true.
 Proof.
-  destruct (he_obs_post c tb atts) as (res & td & lg & E & HF & _ & HU). rewrite E.
+  destruct (he_obs_post c tb atts) as (res & td & lg & E & HF & _ & HU & _). rewrite E.
   exact (clause_unstarted c atts res td lg HF HU).
 Qed.
 
@@ -760,7 +878,7 @@ Qed.
 
 Theorem s_hang_holds c tb atts : s_hang c atts (he_obs c tb atts) = true.
 Proof.
-  destruct (he_obs_post c tb atts) as (res & td & lg & E & HF & _ & HU). rewrite E.
+  destruct (he_obs_post c tb atts) as (res & td & lg & E & HF & _ & HU & _). rewrite E.
   exact (clause_hang c atts res td lg HF HU).
 Qed.
 
